@@ -151,7 +151,7 @@ class Forest(WeightedGraph):
         if self.children == []:
             self.compute_children()
         if len(self.children[v]) == 0:
-            return [v]
+            return [] if exclude_self else [v]
         else:
             desc = [v]
             for w in self.children[v]:
